@@ -157,8 +157,11 @@ def main():
             inconclusive_reasons[str(r.get("reason"))[:80]] += 1
         for v in r.get("violations") or []:
             mech = v.get("mech")
-            if mech is not None and mech in known:
-                known_seen.setdefault(mech, []).append(v)
+            # several mechanisms may explain one witness ("a+b"): all of them must be listed
+            parts = mech.split("+") if isinstance(mech, str) and mech else []
+            if parts and all(p_ in known for p_ in parts):
+                for p_ in parts:
+                    known_seen.setdefault(p_, []).append(v)
             else:
                 violations.append((r, v))
     if hasattr(mod, "fold"):
@@ -166,8 +169,10 @@ def main():
         extra = mod.fold(results, tier, seed)
         for v in extra.get("violations", []):
             mech = v.get("mech")
-            if mech is not None and mech in known:
-                known_seen.setdefault(mech, []).append(v)
+            parts = mech.split("+") if isinstance(mech, str) and mech else []
+            if parts and all(p_ in known for p_ in parts):
+                for p_ in parts:
+                    known_seen.setdefault(p_, []).append(v)
             else:
                 violations.append(({"case": v.get("case"), "case_full": v.get("case_full")}, v))
         for k, v in (extra.get("stats") or {}).items():
